@@ -25,6 +25,8 @@ PROVED = [
     "html/tree.parsePageSelectors (Css/PageSel.v parse_page_selectors)",
     "html/boxes.integerAttribute: colspan/rowspan/span (Css/HtmlAttr.v integer_attribute); <font size> (font_size_attr)",
     "svg.parsePreserveAspectRatio, parseURL stripping, newPainter, parseValue, parseOpacity, parseFontWeight (Css/SvgAttr.v)",
+    "css/parser.ParseColor control flow incl. parseCommaSeparated / rgb / rgba / hsl / hsla / hash colours (Css/ColorMq.v parse_color)",
+    "html/tree.parseMediaQuery, pa.SplitOnComma, the @import prelude (Css/ColorMq.v parse_media_query, import_media)",
 ]
 TESTED_ONLY = [
     "css/validation: ~300 property validators and shorthand expanders through PreprocessDeclarations (component decl, styleattr)",
@@ -40,6 +42,7 @@ SPEC = {
     "harness": "c07",
     "n": {"quick": 30000, "thorough": 600000},
     "shard": 250,
+    "tie_codes": (3,),   # value differs but nobody crashes: the tie is broken, the property itself still holds on that input
     "trusted_base": [
         "/repo hooks */verif_export_c07.go (accessors of unexported parsers)",
         "abstraction of css tokens to Css/PageSel.v ptok done by the harness (ident/literal/number/dimension/function/whitespace/comment/other)",
@@ -59,6 +62,8 @@ SPEC = {
         "pagesel": "C07_parse_page_selectors_total", "nth": "C07_parse_nth_total", "intattr": "C07_integer_attribute_total / C07_integer_attribute_spec",
         "par": "C07_parse_preserve_aspect_ratio_total", "svgvalue": "C07_parse_value_total", "svgopacity": "C07_parse_opacity_total",
         "svgurl": "C07_parse_url_strip_total", "painter": "C07_new_painter_total", "fontweight": "C07_parse_font_weight_total",
+        "colortok": "C07_parse_color_total", "media": "C07_parse_media_query_total",
+        "deep": "the property text (terminates on every input, no crash); components of C05/C06 and the tested-only ones",
     },
     "rule": "one SplitMix64 seed; regression corpus first; property values = sequences of atoms each property accepts alone (discovered at start-up from a dictionary harvested from /repo's validator sources) then mutated (delete, duplicate, swap unit, f(), var() insertion, huge numbers, nesting, stray delimiters, truncation); at-rules, selectors, SVG documents, data: URLs, HTML attribute documents from pools of valid and malformed fragments with byte-level mutations; non-trivial = non-empty input; distinct by (component, input)",
 }
@@ -111,12 +116,32 @@ def run(tier, replay=None):
         rc = corr.run_check(spec, tier, replay)
     finally:
         corr.eval_cases = orig
+    # theorems of the components modelled under other properties, re-exported in Properties/C07Components.v
+    comp = {"file": "coq/theories/Properties/C07Components.v", "available": False, "theorems": [], "axioms": []}
+    try:
+        rcm, outm = corr.coq_make(["theories/Properties/C07Components.vo"], timeout=1500)
+        if rcm == 0:
+            src = os.path.join(corr.COQ, "theories", "Properties", "C07Components.v")
+            rcc, outc = corr.sh(["coqc", "-Q", "theories", "Verif", "-w", "-notation-overridden", "-o",
+                                 os.path.join(corr.WORK, "C07", "C07Components.vo"), src], cwd=corr.COQ, timeout=900)
+            import re
+            names = re.findall(r"^Theorem\s+([A-Za-z0-9_']+)", open(src).read(), re.M)
+            comp.update(available=(rcc == 0), theorems=names if rcc == 0 else [],
+                        closed_under_global_context=outc.count("Closed under the global context"),
+                        axioms=sorted(set(re.findall(r"^([A-Za-z0-9_.']+)\s*\n?\s*:", outc, re.M)) - {"Axioms"} - set(names)))
+        else:
+            comp["log_tail"] = outm[-800:]
+    except Exception as e:  # never fails the check: these theorems belong to other properties
+        comp["error"] = str(e)
+    if not comp["available"]:
+        print("C07: note: Properties/C07Components.v (re-exports of other properties' totality theorems) is not available on this tree")
     # add the proved / tested-only split to the evidence
     evp = os.path.join(corr.ROOT, "evidence", "C07.json")
     try:
         ev = json.load(open(evp))
         ev["coverage"]["proved_components"] = PROVED
         ev["coverage"]["tested_only_components"] = TESTED_ONLY
+        ev["coverage"]["component_theorems_of_other_properties"] = comp
         with open(evp, "w") as f:
             json.dump(ev, f, indent=1, sort_keys=True, default=str)
             f.write("\n")
